@@ -68,7 +68,8 @@ def render_indent(nodes, syn, o):
             else:
                 out.append(nl + base + ind * depth + line)
             if n.sc and not n.text and not n.children:
-                out.append(s['selfClose'])
+                # (pug marks an empty element with `/` under the xml self-closing style only; haml and slim always)
+                out.append('/' if (syn == 'pug' and o.get('output.selfClosingStyle') == 'xml') else s['selfClose'])
             else:
                 if n.text or not n.children:
                     txt = M.strip_fields(n.text) if n.text else n.text      # default field callback: a field prints its placeholder
@@ -275,6 +276,8 @@ def mention_strategy():
         # names listed in output.booleanAttributes WITH a value written: the value is kept (only a value-less one is printed bare / `=true`)
         st.builds(lambda n, v: ['a', n, 'raw', [v], False], st.sampled_from(['hidden', 'contenteditable', 'disabled', 'checked']), st.sampled_from(['false', 'until-found', 'x'])),
         st.builds(lambda n, v: ['a', n, 'dq', [v], False], st.sampled_from(['hidden', 'contenteditable', 'disabled']), st.sampled_from(['false', 'a b'])),
+        # expression values keep their braces: name={expr}
+        st.builds(lambda n, v: ['a', n, 'expr', [v], False], st.sampled_from(['onclick', 'data-v', 'k']), st.sampled_from(['go', 'a.b', 'x+1'])),
         st.builds(lambda n: ['a', n, 'none', None, False], st.sampled_from(['t', 'disabled'])),
         st.builds(lambda n: ['a', n, 'bool', None, False], st.sampled_from(['d', 'e'])),
     )
@@ -322,7 +325,8 @@ def script15(draw, depth=0):
 
 def strategy():
     opts = st.fixed_dictionaries({}, optional={'output.indent': st.sampled_from(['\t', '  ', '    ', '..']), 'output.newline': st.sampled_from(['\n', '\r\n']),
-                                               'output.baseIndent': st.sampled_from(['', '  '])})
+                                               'output.baseIndent': st.sampled_from(['', '  ']),
+                                               'output.selfClosingStyle': st.sampled_from(['html', 'xhtml', 'xml'])})
     return st.builds(lambda sc, s, o: {'script': sc, 'syntax': s, 'options': o}, script15(), st.sampled_from(['haml', 'pug', 'slim']), opts)
 
 
